@@ -17,6 +17,12 @@ pub fn check(case: &Case, rec: &mut Rec) -> Option<Failure> {
     if case.kind.starts_with("threads") {
         return check_threads(case);
     }
+    if case.kind == "clone-from" {
+        return check_clone_from(case, rec);
+    }
+    if case.kind == "drop-then-construct" {
+        return check_drop_construct(case);
+    }
     let mark = case.ops.iter().position(|o| *o == Op::Mark).unwrap_or(case.ops.len());
     let hist = &case.ops[..mark];
     let cont: Vec<Op> = case.ops[(mark + 1).min(case.ops.len())..].to_vec();
@@ -92,6 +98,163 @@ pub fn check(case: &Case, rec: &mut Rec) -> Option<Failure> {
         }
         if !same(&oa, &or) {
             return fail(case, "clone-disturbs-original", format!("continuation op {}: original (whose other clone was fed meanwhile) gives {:?}, isolated twin gives {:?}", i, oa, or));
+        }
+    }
+    None
+}
+
+/// the destination's parameters of a clone-from case: extra = [dst periods…, dst multipliers…]
+pub fn dst_params(case: &Case) -> (Vec<usize>, Vec<f64>) {
+    let (np, nm) = ind::arity(&case.ind).unwrap();
+    let ps: Vec<usize> = case.extra.iter().take(np).map(|x| *x as usize).collect();
+    let ms: Vec<f64> = case.extra.iter().skip(np).take(nm).copied().collect();
+    (ps, ms)
+}
+
+/// kind clone-from: ops = <destination's own history> Mark <source's history> Mark <continuation>.
+/// `Clone::clone_from` INTO AN ALREADY USED instance (same or different parameters) must give a clone like any
+/// other: same parameters / Display as the source, bit-identical outputs for every continuation, independent.
+fn check_clone_from(case: &Case, rec: &mut Rec) -> Option<Failure> {
+    let marks: Vec<usize> = case.ops.iter().enumerate().filter(|(_, o)| **o == Op::Mark).map(|(i, _)| i).collect();
+    if marks.len() < 2 {
+        return None;
+    }
+    let hist_d = &case.ops[..marks[0]];
+    let hist_a = &case.ops[marks[0] + 1..marks[1]];
+    let cont = &case.ops[marks[1] + 1..];
+    let (dps, dms) = dst_params(case);
+    // source and its isolated twin
+    let a = match mk(case, rec) {
+        Ok(i) => i,
+        Err(f) => return Some(f),
+    };
+    let twin = match mk(case, rec) {
+        Ok(i) => i,
+        Err(f) => return Some(f),
+    };
+    for (i, op) in hist_a.iter().enumerate() {
+        if let Some(None) = feed(rec, a, op) {
+            return fail(case, "panic", format!("panic at source history op {}", i));
+        }
+        if let Some(None) = feed(rec, twin, op) {
+            return fail(case, "panic", format!("twin panicked at source history op {}", i));
+        }
+    }
+    // two destinations with their own parameters and history
+    let mut dsts = vec![];
+    for _ in 0..2 {
+        let (d, res) = rec.new_ind(&case.ind, &dps, &dms);
+        if res != crate::rec::NewRes::Ok {
+            return fail(case, "ctor", format!("constructor returned {:?} for {:?} {:?}", res, dps, dms));
+        }
+        for (i, op) in hist_d.iter().enumerate() {
+            if let Some(None) = feed(rec, d, op) {
+                return fail(case, "panic", format!("panic at destination history op {}", i));
+            }
+        }
+        dsts.push(d);
+    }
+    let (d1, d2) = (dsts[0], dsts[1]);
+    for d in [d1, d2] {
+        if !rec.clone_from(d, a) {
+            return fail(case, "panic", "clone_from panicked".into());
+        }
+        let (pa, ma, da) = (rec.period(a), rec.multiplier(a), rec.display(a));
+        let (pd, md, dd) = (rec.period(d), rec.multiplier(d), rec.display(d));
+        if pa != pd || da != dd || ma.map(|x| x.to_bits()) != md.map(|x| x.to_bits()) {
+            return fail(case, "clone-from-params", format!("after dst.clone_from(&src) (dst built with {:?} {:?} and fed {} ops, src fed {} ops) the source has {:?}/{:?}/{} but the copy {:?}/{:?}/{}", dps, dms, hist_d.len(), hist_a.len(), pa, ma, da, pd, md, dd));
+        }
+    }
+    // the second copy is fed a DIFFERENT stream first: neither the source nor the first copy may notice
+    for op in cont.iter().rev() {
+        let pert = match op {
+            Op::Next(x) => Op::Next(-x + 7.0),
+            Op::Bar(b) => Op::Bar(ind::B { o: b.c, h: b.h + 5.0, l: b.l - 5.0, c: b.o, v: b.v * 2.0 + 1.0 }),
+            o => o.clone(),
+        };
+        let _ = feed(rec, d2, &pert);
+    }
+    for (i, op) in cont.iter().enumerate() {
+        let oa = match feed(rec, a, op) {
+            Some(Some(o)) => o,
+            Some(None) => return fail(case, "panic", format!("panic at continuation op {}", i)),
+            None => continue,
+        };
+        let od = match feed(rec, d1, op) {
+            Some(Some(o)) => o,
+            _ => return fail(case, "panic", format!("clone_from copy panicked at continuation op {} ({:?})", i, op)),
+        };
+        let ot = match feed(rec, twin, op) {
+            Some(Some(o)) => o,
+            _ => return fail(case, "panic", format!("twin panicked at continuation op {}", i)),
+        };
+        if !same(&oa, &od) {
+            return fail(case, "clone-from-differs", format!("continuation op {}: source gives {:?}, the instance (built with {:?} {:?}, fed {} ops) that was overwritten by clone_from(&source) gives {:?}", i, oa, dps, dms, hist_d.len(), od));
+        }
+        if !same(&oa, &ot) {
+            return fail(case, "clone-disturbs-original", format!("continuation op {}: source (whose other clone_from copy was fed meanwhile) gives {:?}, isolated twin gives {:?}", i, oa, ot));
+        }
+    }
+    None
+}
+
+fn drive(inst: &mut Ind, op: &Op) -> Vec<u64> {
+    bits(&match op {
+        Op::Next(x) => {
+            if inst.has_next() {
+                inst.next(*x)
+            } else {
+                inst.next_bar(&ind::B::flat(*x))
+            }
+        }
+        Op::Bar(b) => inst.next_bar(b),
+        Op::Reset => {
+            inst.reset();
+            vec![]
+        }
+        Op::Mark => vec![],
+    })
+}
+
+/// kind drop-then-construct: ops = <stream of a short-lived instance> Mark <common stream>.
+/// W is built first and kept; X is built, fed its stream and DROPPED; then Y and Z are built on the same thread
+/// (and V on another new thread) with the same parameters: W, Y, Z, V fed the common stream must agree bit for bit —
+/// nothing of a dead instance may reach a later one (no pool / cache / thread-local scratch state).
+/// Driven directly (windows of >= 4096 slots: not logged for the model replay).
+fn check_drop_construct(case: &Case) -> Option<Failure> {
+    let mark = case.ops.iter().position(|o| *o == Op::Mark).unwrap_or(case.ops.len());
+    let xs = &case.ops[..mark];
+    let common: Vec<Op> = case.ops[(mark + 1).min(case.ops.len())..].to_vec();
+    let mk_ = || Ind::create(&case.ind, &case.ps, &case.ms).unwrap().unwrap();
+    let run = |mut inst: Ind, ops: &[Op]| -> Vec<Vec<u64>> { ops.iter().map(|op| drive(&mut inst, op)).collect() };
+    // the whole experiment runs on a thread of its own: whatever per-thread state earlier cases of this process
+    // left behind cannot influence it (the case replays the same way in a new process)
+    let body = || {
+        let w = mk_();
+        // several generations of short-lived instances (a pool may hand a buffer out only the second time round)
+        for gen in 0..2 {
+            let mut x = mk_();
+            for op in xs.iter().skip(gen) {
+                drive(&mut x, op);
+            }
+            drop(x);
+        }
+        let y = mk_();
+        let z = mk_();
+        (run(w, &common), run(y, &common), run(z, &common))
+    };
+    let (out_w, out_y, out_z) = match std::thread::scope(|s| s.spawn(body).join()) {
+        Ok(o) => o,
+        Err(_) => return fail(case, "panic", "panic in the drop-then-construct experiment".into()),
+    };
+    let out_v: Vec<Vec<u64>> = match std::thread::scope(|s| s.spawn(|| run(mk_(), &common)).join()) {
+        Ok(o) => o,
+        Err(_) => return fail(case, "panic", "panic on the new thread".into()),
+    };
+    for (who, o) in [("the first instance built after an instance of the same parameters was dropped", &out_y), ("the second instance built after the drop", &out_z), ("an instance built on a new thread", &out_v)] {
+        if let Some(i) = (0..common.len()).find(|i| o[*i] != out_w[*i]) {
+            let f = |v: &Vec<u64>| -> Vec<f64> { v.iter().map(|b| f64::from_bits(*b)).collect() };
+            return fail(case, "depends-on-dropped-instance", format!("common stream op {} ({:?}): {} gives {:?}, an instance built before (same parameters, same stream) gives {:?}", i, common[i], who, f(&o[i]), f(&out_w[i])));
         }
     }
     None
@@ -184,6 +347,67 @@ pub fn generate(r: &mut Runner) {
             }
         }
     }
+    // Clone::clone_from into an ALREADY USED instance (same / different parameters), incl. the rollback idiom
+    // (source still in warm-up or fresh, destination further along)
+    let cf = if r.tier == Tier::Quick { 660 } else { 11000 };
+    r.log_every = if r.tier == Tier::Quick { 13 } else { 211 };
+    for i in 0..cf {
+        let name = ind::NAMES[i % ind::NAMES.len()];
+        let maxp = if r.rng.chance(0.4) { 5 } else { 64 };
+        let (ps, ms) = crate::diff::params_for(&mut r.rng, name, maxp);
+        let mx = ps.iter().copied().max().unwrap_or(1);
+        let (dps, dms) = if r.rng.chance(0.5) { (ps.clone(), ms.clone()) } else { crate::diff::params_for(&mut r.rng, name, maxp) };
+        let dmx = dps.iter().copied().max().unwrap_or(1);
+        let scale = *r.rng.pick(&[1.0, 100.0, 1e6]);
+        let mut c = Case::new("C05", "clone-from", name, &ps, &ms);
+        c.extra = dps.iter().map(|p| *p as f64).chain(dms.iter().copied()).collect();
+        // destination: anything from fresh to several wraps of ITS window; source: half of the time still in warm-up
+        let hd = if r.rng.chance(0.15) { 0 } else { r.rng.range(1, 3 * dmx + 3) };
+        let ha = if r.rng.chance(0.5) { r.rng.range(0, mx) } else { r.rng.range(0, 3 * mx + 3) };
+        let wp = if r.rng.chance(0.2) { 0.05 } else { 0.0 };
+        let nores = r.rng.chance(0.7);
+        c.ops = super::c04::history(r, name, hd, wp, scale).into_iter().filter(|o| !(nores && *o == Op::Reset)).collect();
+        c.ops.push(Op::Mark);
+        c.ops.extend(super::c04::history(r, name, ha, wp, scale).into_iter().filter(|o| !(nores && *o == Op::Reset)));
+        c.ops.push(Op::Mark);
+        let cl = mx.max(dmx) + 2 + r.rng.below(10);
+        c.ops.extend(super::c04::history(r, name, cl, 0.0, scale).into_iter().filter(|o| !(nores && *o == Op::Reset)));
+        r.run(c, hd > 0);
+    }
+    // an instance is DROPPED, then instances with the same parameters are built on the same thread: small periods and
+    // windows of >= 4096 slots (allocation sizes at which pooling / recycling of buffers becomes attractive)
+    r.log_every = u64::MAX;
+    let big: &[usize] = if r.tier == Tier::Quick { &[4096, 5000, 8192] } else { &[4096, 4097, 5000, 8192, 16384, 65536] };
+    for name in ind::NAMES {
+        let (np, _) = ind::arity(name).unwrap();
+        // per-step cost O(period)
+        let slow = matches!(*name, "MeanAbsoluteDeviation" | "CommodityChannelIndex" | "EfficiencyRatio");
+        let mut periods: Vec<usize> = vec![r.rng.range(1, 8), r.rng.range(9, 300)];
+        periods.extend(big.iter().copied().filter(|p| !(slow && *p > 8192)));
+        for p in periods {
+            if np == 0 && p > 8 {
+                continue;
+            }
+            let (mut ps, ms) = crate::diff::params_for(&mut r.rng, name, 16);
+            for q in ps.iter_mut() {
+                *q = p;
+            }
+            // the short-lived instance sees 1 input, a few, half a window, or more than a window
+            for xl in [1usize, r.rng.range(2, 9), p / 2 + 1, p + 3] {
+                if slow && xl > 5000 {
+                    continue;
+                }
+                let scale = *r.rng.pick(&[1.0, 100.0, 1e6]);
+                let mut c = Case::new("C05", "drop-then-construct", name, &ps, &ms);
+                c.ops = super::c04::history(r, name, xl, 0.0, scale).into_iter().filter(|o| *o != Op::Reset).collect();
+                c.ops.push(Op::Mark);
+                // long enough to come back to every slot of the window (cheap indicators), else into warm-up only
+                let cl = if slow && p > 300 { 40 } else { p + 3 + r.rng.below(10) };
+                c.ops.extend(super::c04::history(r, name, cl, 0.0, scale).into_iter().filter(|o| *o != Op::Reset));
+                r.run(c, true);
+            }
+        }
+    }
     let tcases = if r.tier == Tier::Quick { 22 } else { 220 };
     for i in 0..tcases {
         let name = ind::NAMES[i % ind::NAMES.len()];
@@ -194,4 +418,4 @@ pub fn generate(r: &mut Runner) {
     }
 }
 
-pub const RULE: &str = "per case: an instance A is fed a history while an unrelated instance of the same type is fed perturbed data between every two calls; an isolated twin replays the same history (outputs must be bit-identical); A is cloned, the clone is fed a *different* stream, A is cloned again and A, the second clone and the isolated twin are fed the continuation alternately (all bit-identical). kind clone-in-warmup-big-window: periods 513..1100, clone after 2, 3, 5, period/2 and period-1 inputs, continuation longer than the period. kind threads16: 16 distinct instances run concurrently on 16 threads vs the same 16 runs sequentially. Non-trivial = non-empty history before the clone point. NaN compares equal to NaN.";
+pub const RULE: &str = "per case: an instance A is fed a history while an unrelated instance of the same type is fed perturbed data between every two calls; an isolated twin replays the same history (outputs must be bit-identical); A is cloned, the clone is fed a *different* stream, A is cloned again and A, the second clone and the isolated twin are fed the continuation alternately (all bit-identical). kind clone-in-warmup-big-window: periods 513..1100, clone after 2, 3, 5, period/2 and period-1 inputs, continuation longer than the period. kind clone-from: Clone::clone_from INTO AN ALREADY USED instance: two destinations built with the same (half of the cases) or different parameters and fed their own history (0..3n+3 inputs) are overwritten with dst.clone_from(&A), A being fresh / in warm-up (half of the cases) / past several wraps; period, multiplier and Display of the copy must equal A's, one copy is fed a different stream, then A, the other copy and A's isolated twin are fed a continuation longer than both periods (all bit-identical). kind drop-then-construct: an instance W is built and kept, two generations of instances with the same parameters are built, fed 1 / a few / period/2+1 / period+3 inputs and DROPPED, then Y and Z are built on the same thread and V on a new thread; W, Y, Z, V fed the same stream (longer than the period; 40 inputs for the O(period)-per-step indicators at big periods) must agree bit for bit; periods: two random ones <= 300 and 4096, 5000, 8192 (thorough: also 4097, 16384, 65536). kind threads16: 16 distinct instances run concurrently on 16 threads vs the same 16 runs sequentially. Non-trivial = non-empty history before the clone point (clone-from: the destination was used before). NaN compares equal to NaN.";
